@@ -178,46 +178,47 @@ fn inside_witness<'a>(x: &R, s: &Stop, field: Option<&str>, n: &N<'a>, ctx: &Ctx
     anc.push(p);
   }
   if let Some(f) = field {
-    // only generated with stopBy neighbor: n is the `field` child of its parent
-    let p = anc.into_iter().next()?;
-    let c = field_child(&p, f, ctx)?;
-    if c.node_id() != n.node_id() {
-      return None;
+    // an ancestor within the stopBy limit whose `field` child is the node or lies on the path to it
+    let mut below = n.clone();
+    for p in limited(anc, s, ctx) {
+      let on_path = field_child(&p, f, ctx).map(|c| c.node_id() == below.node_id()).unwrap_or(false);
+      below = p.clone();
+      if on_path {
+        if let Some(w) = returned(x, &p, ctx) {
+          return Some(w);
+        }
+      }
     }
-    return returned(x, &p, ctx);
+    return None;
   }
   limited(anc, s, ctx).into_iter().find_map(|p| returned(x, &p, ctx))
 }
 
 fn has_witness<'a>(x: &R, s: &Stop, field: Option<&str>, n: &N<'a>, ctx: &Ctx) -> Option<N<'a>> {
-  if let Some(f) = field {
-    let c = field_child(n, f, ctx)?;
-    return returned(x, &c, ctx);
-  }
-  fn go<'a>(x: &R, s: &Stop, n: &N<'a>, ctx: &Ctx) -> Option<N<'a>> {
-    for c in kids(n) {
+  // candidates: the children, or with `field` the one child labelled so; below each candidate the
+  // search continues as far as stopBy allows (inclusive of a node satisfying the stop rule)
+  fn go<'a>(x: &R, s: &Stop, cands: Vec<N<'a>>, ctx: &Ctx) -> Option<N<'a>> {
+    for c in cands {
       if let Some(w) = returned(x, &c, ctx) {
         return Some(w);
       }
-      match s {
-        Stop::Neighbor => {}
-        Stop::End => {
-          if let Some(w) = go(x, s, &c, ctx) {
-            return Some(w);
-          }
-        }
-        Stop::Rule(st) => {
-          if !holds(st, &c, ctx) {
-            if let Some(w) = go(x, s, &c, ctx) {
-              return Some(w);
-            }
-          }
+      let deeper = match s {
+        Stop::Neighbor => false,
+        Stop::End => true,
+        Stop::Rule(st) => !holds(st, &c, ctx),
+      };
+      if deeper {
+        if let Some(w) = go(x, s, kids(&c), ctx) {
+          return Some(w);
         }
       }
     }
     None
   }
-  go(x, s, n, ctx)
+  match field {
+    Some(f) => go(x, s, field_child(n, f, ctx).into_iter().collect(), ctx),
+    None => go(x, s, kids(n), ctx),
+  }
 }
 
 pub fn holds(r: &R, n: &N, ctx: &Ctx) -> bool {
